@@ -11,6 +11,8 @@ Trace == ndJsonDeserialize(IOEnv.VERIF_TRACE)
 (* Rules whose violation does not invalidate the abstract state.            *)
 Soft == {"C07.refused"}
 
+MaxHard == 3   \* failing events recorded per trace before the rest is skipped
+
 VARIABLES l, st, bad, tid
 vars == <<l, st, bad, tid>>
 
@@ -29,7 +31,7 @@ TraceNext ==
      THEN /\ tid' = e.tid
           /\ st' = EInit(e.W)
           /\ bad' = 0
-     ELSE IF bad # 0 \/ e.op = "end"
+     ELSE IF bad >= MaxHard \/ e.op = "end"
      THEN UNCHANGED <<tid, st, bad>>
      ELSE LET why == EWhy(st, e) IN
           IF why = {}
@@ -40,12 +42,16 @@ TraceNext ==
                /\ st' = EEff(st, e)
                /\ UNCHANGED <<tid, bad>>
                /\ TLCSet(1, Append(TLCGet(1), [tid |-> tid, line |-> l, why |-> why]))
-          ELSE /\ bad' = l
-               /\ UNCHANGED <<tid, st>>
+          ELSE \* a hard rule failed: record it; keep validating the rest of the
+               \* trace from the state the event claims, as long as that state is sane
                /\ TLCSet(1, Append(TLCGet(1), [tid |-> tid, line |-> l, why |-> why]))
+               /\ UNCHANGED tid
+               /\ IF bad + 1 < MaxHard /\ EStateOk(EEff(st, e))
+                     THEN st' = EEff(st, e) /\ bad' = bad + 1
+                     ELSE bad' = MaxHard /\ UNCHANGED st
 
 TraceSpec == TraceInit /\ [][TraceNext]_vars
-TraceInv == bad # 0 \/ EStateOk(st)
+TraceInv == bad >= MaxHard \/ EStateOk(st)
 
 Post ==
   /\ PrintT(<<"VERIF_BAD", ToJson(TLCGet(1))>>)
